@@ -2,16 +2,20 @@ package main
 
 import (
 	"bytes"
+	"encoding/binary"
 	"errors"
 	"fmt"
+	"io"
 	"os"
 	"path/filepath"
 	"sort"
 	"strconv"
 	"strings"
 
+	rProto "github.com/thomasjungblut/go-sstables/recordio/proto"
 	"github.com/thomasjungblut/go-sstables/skiplist"
 	"github.com/thomasjungblut/go-sstables/sstables"
+	sstProto "github.com/thomasjungblut/go-sstables/sstables/proto"
 )
 
 // ---------------------------------------------------------------------------------------------
@@ -232,20 +236,183 @@ func (ref *mgRef) list(pred func(k, v []byte) bool) []mgRec {
 	return out
 }
 
+// the data file of an input table loses its tail: it ends at byte `off`, inside or right before record `rec`
+type mgCut struct {
+	rec    int    // first record that is not completely there any more
+	kind   string // record-boundary | in-header | after-header | in-payload
+	off    int64
+	before bool // the tail was already missing when the reader was opened (and the table loaded nevertheless)
+}
+
 type mgFault struct {
 	reads  map[int]int // input → failing call
 	writes map[int]bool
+	cuts   map[int]mgCut // input → lost tail of its data file (appears after the reader was opened and validated)
 }
 
+func (f mgFault) cutTok() string {
+	var is []int
+	for i := range f.cuts {
+		is = append(is, i)
+	}
+	sort.Ints(is)
+	var cs []string
+	for _, i := range is {
+		c := f.cuts[i]
+		when := "after-open"
+		if c.before {
+			when = "before-open"
+		}
+		cs = append(cs, fmt.Sprintf("%d:%s:%s@rec%d(byte %d)", i, when, c.kind, c.rec, c.off))
+	}
+	return strings.Join(cs, ",")
+}
+
+// positions of the records in a table's data file, taken from its index file: start offset and header length of
+// every record, and the file length
+type mgLayout struct {
+	offs []int64
+	hdr  []int64
+	size int64
+}
+
+func (l *mgLayout) end(j int) int64 {
+	if j+1 < len(l.offs) {
+		return l.offs[j+1]
+	}
+	return l.size
+}
+
+func mgDataLayout(dir string) (*mgLayout, error) {
+	data, err := os.ReadFile(filepath.Join(dir, sstables.DataFileName))
+	if err != nil {
+		return nil, err
+	}
+	l := &mgLayout{size: int64(len(data))}
+	rd, err := rProto.NewReader(rProto.ReaderPath(filepath.Join(dir, sstables.IndexFileName)))
+	if err != nil {
+		return nil, err
+	}
+	if err := rd.Open(); err != nil {
+		return nil, err
+	}
+	defer rd.Close()
+	for {
+		e := &sstProto.IndexEntry{}
+		if _, err := rd.ReadNext(e); err != nil {
+			if errors.Is(err, io.EOF) {
+				break
+			}
+			return nil, err
+		}
+		off := int64(e.ValueOffset)
+		if off < 0 || off >= l.size {
+			return nil, fmt.Errorf("index offset %d outside the data file of %d bytes", off, l.size)
+		}
+		// record header (V4): uvarint magic, nil flag byte, uvarint size, uvarint compressed size, uvarint checksum
+		p := off
+		for f := 0; f < 5; f++ {
+			if f == 1 {
+				p++
+				continue
+			}
+			_, n := binary.Uvarint(data[p:])
+			if n <= 0 {
+				return nil, fmt.Errorf("cannot parse the record header at offset %d", off)
+			}
+			p += int64(n)
+		}
+		l.offs = append(l.offs, off)
+		l.hdr = append(l.hdr, p-off)
+	}
+	for j := range l.offs {
+		if l.offs[j]+l.hdr[j] > l.end(j) {
+			return nil, fmt.Errorf("record %d: header of %d bytes does not fit between %d and %d", j, l.hdr[j], l.offs[j], l.end(j))
+		}
+	}
+	return l, nil
+}
+
+// the cuts that take (part of) record j away
+func (l *mgLayout) cutsOf(r *Rng, j int) []mgCut {
+	start, hdrEnd, end := l.offs[j], l.offs[j]+l.hdr[j], l.end(j)
+	cs := []mgCut{{rec: j, kind: "record-boundary", off: start}}
+	if hdrEnd-start >= 2 {
+		cs = append(cs, mgCut{rec: j, kind: "in-header", off: start + 1 + int64(r.Intn(int(hdrEnd-start-1)))})
+	}
+	if end > hdrEnd {
+		cs = append(cs, mgCut{rec: j, kind: "after-header", off: hdrEnd})
+	}
+	if end-hdrEnd >= 2 {
+		cs = append(cs, mgCut{rec: j, kind: "in-payload", off: hdrEnd + 1 + int64(r.Intn(int(end-hdrEnd-1)))})
+	}
+	return cs
+}
+
+// replaces the data file at the table's path by its first n bytes. The intact file is moved aside (a reader that
+// holds it memory mapped keeps a valid mapping) and put back by restore.
+func mgCutDataFile(dir string, n int64) (restore func() error, err error) {
+	p := filepath.Join(dir, sstables.DataFileName)
+	b, err := os.ReadFile(p)
+	if err != nil {
+		return nil, err
+	}
+	if n < 0 || n > int64(len(b)) {
+		return nil, fmt.Errorf("cut at %d outside the data file of %d bytes", n, len(b))
+	}
+	if err := os.Rename(p, p+".intact"); err != nil {
+		return nil, err
+	}
+	if err := os.WriteFile(p, b[:n], 0o644); err != nil {
+		return nil, err
+	}
+	return func() error {
+		if err := os.Remove(p); err != nil {
+			return err
+		}
+		return os.Rename(p+".intact", p)
+	}, nil
+}
+
+func mgCopyTable(from, to string) error {
+	if err := os.MkdirAll(to, 0o755); err != nil {
+		return err
+	}
+	ents, err := os.ReadDir(from)
+	if err != nil {
+		return err
+	}
+	for _, e := range ents {
+		b, err := os.ReadFile(filepath.Join(from, e.Name()))
+		if err != nil {
+			return err
+		}
+		if err := os.WriteFile(filepath.Join(to, e.Name()), b, 0o644); err != nil {
+			return err
+		}
+	}
+	return nil
+}
+
+// tok: the read faults as the model sees them (a lost tail at record j = the input's j-th Next fails), the write faults
 func (f mgFault) tok() (string, string) {
 	var rs, ws []string
+	at := map[int]int{}
+	for i, p := range f.reads {
+		at[i] = p
+	}
+	for i, c := range f.cuts {
+		if p, ok := at[i]; !ok || c.rec < p {
+			at[i] = c.rec
+		}
+	}
 	var is []int
-	for i := range f.reads {
+	for i := range at {
 		is = append(is, i)
 	}
 	sort.Ints(is)
 	for _, i := range is {
-		rs = append(rs, fmt.Sprintf("%d:%d", i, f.reads[i]))
+		rs = append(rs, fmt.Sprintf("%d:%d", i, at[i]))
 	}
 	var wl []int
 	for w := range f.writes {
@@ -267,6 +434,13 @@ type mgRun struct {
 	readBack []mgRec // content of the output table after Close (only when err == nil)
 	mutated  string  // a record of the read-back scan changed under later Next calls
 	numRecs  uint64
+	// per input with a lost data tail: what a plain full Scan() of that table delivered
+	cutScan map[int]mgCutScan
+}
+
+type mgCutScan struct {
+	n   int
+	err error
 }
 
 // one Merge / MergeCompact over fresh iterators of the given readers into a fresh real table
@@ -282,6 +456,47 @@ func mgRunOp(op string, readers []sstables.SSTableReaderI, outDir string, f mgFa
 	fw := &faultWriter{inner: real, failAt: f.writes}
 	if err := fw.Open(); err != nil {
 		return nil, err
+	}
+	run := &mgRun{}
+	// lost tails: the readers are open and validated, the data files shrink now, before the scans are started
+	var restores []func() error
+	restoreAll := func() error {
+		var err error
+		for _, rs := range restores {
+			err = errors.Join(err, rs())
+		}
+		restores = nil
+		return err
+	}
+	defer restoreAll()
+	for i, c := range f.cuts {
+		if c.before {
+			continue
+		}
+		rs, err := mgCutDataFile(readers[i].BasePath(), c.off)
+		if err != nil {
+			return nil, err
+		}
+		restores = append(restores, rs)
+	}
+	if len(f.cuts) > 0 {
+		useIndexScan = false // the lookup path reads through the mapping of the intact file
+		run.cutScan = map[int]mgCutScan{}
+		for i := range f.cuts {
+			var cs mgCutScan
+			if e := safely(func() error {
+				it, err := readers[i].Scan()
+				if err != nil {
+					return err
+				}
+				recs, _, err := mgDrain(it)
+				cs.n = len(recs)
+				return err
+			}); e != nil {
+				cs.err = e
+			}
+			run.cutScan[i] = cs
+		}
 	}
 	var its []sstables.SSTableMergeIteratorContext
 	var fis []*faultIter
@@ -302,7 +517,6 @@ func mgRunOp(op string, readers []sstables.SSTableReaderI, outDir string, f mgFa
 		fis = append(fis, fi)
 		its = append(its, sstables.NewMergeIteratorContext(i, fi))
 	}
-	run := &mgRun{}
 	merger := sstables.NewSSTableMerger(skiplist.BytesComparator{})
 	run.err = safely(func() error {
 		switch op {
@@ -316,6 +530,9 @@ func mgRunOp(op string, readers []sstables.SSTableReaderI, outDir string, f mgFa
 		return errors.New("unknown op")
 	})
 	cerr := fw.Close()
+	if err := restoreAll(); err != nil {
+		return nil, fmt.Errorf("putting the intact data files back: %w", err)
+	}
 	for _, fi := range fis {
 		run.hitRead += fi.hit
 	}
@@ -343,6 +560,9 @@ func mgRunOp(op string, readers []sstables.SSTableReaderI, outDir string, f mgFa
 	}
 	return run, nil
 }
+
+// error kinds a reader reports when its file ends early
+var mgShortReadKinds = map[string]bool{"eof": true, "ueof": true}
 
 var mgAlphabet = []byte{0x00, 'a', 'b', 0xff}
 
@@ -748,17 +968,22 @@ func runMerge(res *Result, drv *Driver, seed uint64, n int, tier string, only in
 
 		// ---------------- C08 / C11: Merge and MergeCompact, fault free and with injected faults
 		runNo := 0
+		curReaders := readers
 		doRun := func(op string, f mgFault) error {
 			runNo++
 			outDir := filepath.Join(cdir, fmt.Sprintf("out%d", runNo))
-			run, err := mgRunOp(op, readers, outDir, f, !anyDisk && r.Chance(30), bufSizes[r.Intn(len(bufSizes))], r.Intn(4), loaders[0])
+			run, err := mgRunOp(op, curReaders, outDir, f, !anyDisk && r.Chance(30), bufSizes[r.Intn(len(bufSizes))], r.Intn(4), loaders[0])
 			if err != nil {
 				return fmt.Errorf("case %d op %s: %w", idx, op, err)
 			}
 			defer os.RemoveAll(outDir)
 			rt, wt := f.tok()
 			rcs := fmt.Sprintf("op=%s fails=%s wfails=%s %s", op, rt, wt, cs)
-			faulty := len(f.reads)+len(f.writes) > 0
+			if len(f.cuts) > 0 {
+				rt0, _ := mgFault{reads: f.reads}.tok()
+				rcs = fmt.Sprintf("op=%s data-tail-lost=%s fails=%s wfails=%s %s", op, f.cutTok(), rt0, wt, cs)
+			}
+			faulty := len(f.reads)+len(f.writes)+len(f.cuts) > 0
 			res.Stat("run:" + op)
 			res.Stat("run-result:" + op + ":" + mergeErrKind(run.err))
 			// C11 oracle: a fault that was hit must surface as an error
@@ -766,6 +991,8 @@ func runMerge(res *Result, drv *Driver, seed uint64, n int, tier string, only in
 			if faulty {
 				res.Evaluations++
 				switch {
+				case len(f.cuts) > 0:
+					res.Stat("fault-hit:data-tail-lost")
 				case run.hitRead > 0 && run.hitWrite > 0:
 					res.Stat("fault-hit:read+write")
 				case run.hitRead > 0:
@@ -783,6 +1010,30 @@ func runMerge(res *Result, drv *Driver, seed uint64, n int, tier string, only in
 					res.Violate(idx, "C11", "merge:"+op+":"+kind+"-fault-absorbed",
 						fmt.Sprintf("%d injected read fault(s) and %d injected write fault(s) were returned to the merger, which reported success; table holds %s",
 							run.hitRead, run.hitWrite, mgRecsStr(run.readBack, false)), rcs)
+				}
+			}
+			// C11 oracle for lost tails: the index of the input announces records its data file does not hold any more.
+			// A full scan of that table and a merge over it end with an error or deliver every announced record; a merge
+			// that succeeds has drained every input, so success is never possible here.
+			for i, c := range f.cuts {
+				when := "after-open"
+				if c.before {
+					when = "before-open:empty-value-tail"
+				}
+				res.Stat("data-tail-lost:" + when + ":" + c.kind)
+				res.Stat("data-tail-lost:merge-result:" + c.kind + ":" + mergeErrKind(run.err))
+				sc := run.cutScan[i]
+				res.Stat("data-tail-lost:scan-result:" + c.kind + ":" + mergeErrKind(sc.err))
+				res.Evaluations += 2
+				if sc.err == nil && sc.n < len(tables[i]) {
+					res.Violate(idx, "C11", "scan:data-tail-lost-"+when+":"+c.kind,
+						fmt.Sprintf("Scan() of input %d ended with Done after %d of the %d records its index announces (data file ends at byte %d, record %d is not complete)",
+							i, sc.n, len(tables[i]), c.off, c.rec), rcs)
+				}
+				if run.err == nil {
+					res.Violate(idx, "C11", "merge:"+op+":data-tail-lost-"+when+":"+c.kind,
+						fmt.Sprintf("the data file of input %d ends at byte %d (record %d of %d is not complete), the operation reported success; table holds %s",
+							i, c.off, c.rec, len(tables[i]), mgRecsStr(run.readBack, false)), rcs)
 				}
 			}
 			// C08 (and the "never reports success for a wrong output" half of C11): success => exact output
@@ -862,7 +1113,12 @@ func runMerge(res *Result, drv *Driver, seed uint64, n int, tier string, only in
 			if err != nil {
 				return err
 			}
-			impl := fmt.Sprintf("err=%s calls=%d out=%s", mergeErrKind(run.err), run.calls, mgRecsStr(run.written, false))
+			ek := mergeErrKind(run.err)
+			if len(f.cuts) > 0 && mgShortReadKinds[ek] {
+				// the model knows one kind of failing Next; a short read shows up as one of the end-of-file kinds
+				ek = "io"
+			}
+			impl := fmt.Sprintf("err=%s calls=%d out=%s", ek, run.calls, mgRecsStr(run.written, false))
 			res.Cmp(idx, "merge.run", m, impl, rcs)
 			return nil
 		}
@@ -917,6 +1173,121 @@ func runMerge(res *Result, drv *Driver, seed uint64, n int, tier string, only in
 						closeAll()
 						return err
 					}
+				}
+			}
+		}
+		// ---------------- C11: the data file of an input loses its tail (the index still announces the records)
+		{
+			r2 := NewRng(seed^0x7a11105e, uint64(idx)) // own generator state: the cases above stay what they were
+			layouts := make([]*mgLayout, nt)
+			var nonEmptyTables []int
+			for t := range tables {
+				if len(tables[t]) == 0 {
+					continue
+				}
+				l, err := mgDataLayout(filepath.Join(cdir, fmt.Sprintf("t%d", t)))
+				if err == nil && len(l.offs) != len(tables[t]) {
+					err = fmt.Errorf("index lists %d records, %d were written", len(l.offs), len(tables[t]))
+				}
+				if err != nil {
+					closeAll()
+					return fmt.Errorf("case %d: layout of input table %d: %w", idx, t, err)
+				}
+				layouts[t] = l
+				nonEmptyTables = append(nonEmptyTables, t)
+			}
+			// (a) after the reader was opened and validated, before the scans start
+			if small {
+				res.Stat("data-tail-lost-cases:exhaustive")
+				for _, t := range nonEmptyTables {
+					for j := range tables[t] {
+						for _, c := range layouts[t].cutsOf(r2, j) {
+							// quick: one of the three operations per cut (drawn), thorough: all of them
+							cutOps := []string{ops[r2.Intn(len(ops))]}
+							if tier == "thorough" {
+								cutOps = ops
+							}
+							for _, op := range cutOps {
+								if err := doRun(op, mgFault{cuts: map[int]mgCut{t: c}}); err != nil {
+									closeAll()
+									return err
+								}
+							}
+						}
+					}
+				}
+			} else if len(nonEmptyTables) > 0 {
+				res.Stat("data-tail-lost-cases:sampled")
+				ns := 3
+				if tier == "thorough" {
+					ns = 8
+				}
+				for k := 0; k < ns; k++ {
+					f := mgFault{cuts: map[int]mgCut{}}
+					for c := 0; c < 1+r2.Intn(2); c++ {
+						t := nonEmptyTables[r2.Intn(len(nonEmptyTables))]
+						cs := layouts[t].cutsOf(r2, r2.Intn(len(tables[t])))
+						f.cuts[t] = cs[r2.Intn(len(cs))]
+					}
+					if r2.Chance(25) {
+						f.writes = map[int]bool{r2.Intn(total + 1): true}
+					}
+					if err := doRun(ops[r2.Intn(len(ops))], f); err != nil {
+						closeAll()
+						return err
+					}
+				}
+			}
+			// (b) before the reader is opened: the trailing records with empty / nil values are gone. Their stored
+			// checksum is 0, which the load validation does not compare, and it takes the end of the file for an empty
+			// value: the table may load. Whether it loads is not judged here (Stat only); if it does, the scans and
+			// merges over it are judged as above.
+			var cand []int
+			tailLen := make([]int, nt)
+			for _, t := range nonEmptyTables {
+				for j := len(tables[t]) - 1; j >= 0 && len(tables[t][j].v) == 0; j-- {
+					tailLen[t]++
+				}
+				if tailLen[t] > 0 {
+					cand = append(cand, t)
+				}
+			}
+			if len(cand) > 0 {
+				t := cand[r2.Intn(len(cand))]
+				j := len(tables[t]) - 1 - r2.Intn(tailLen[t])
+				if r2.Chance(50) {
+					j = len(tables[t]) - 1
+				}
+				lost := filepath.Join(cdir, fmt.Sprintf("t%d-tail-lost", t))
+				if err := mgCopyTable(filepath.Join(cdir, fmt.Sprintf("t%d", t)), lost); err != nil {
+					closeAll()
+					return err
+				}
+				off := layouts[t].offs[j]
+				if err := os.Truncate(filepath.Join(lost, sstables.DataFileName), off); err != nil {
+					closeAll()
+					return err
+				}
+				var rd sstables.SSTableReaderI
+				var oerr error
+				if e := safely(func() error { rd, oerr = mgOpen(lost, loaders[t]); return nil }); e != nil {
+					oerr = e
+				}
+				if oerr != nil {
+					res.Stat(fmt.Sprintf("data-tail-lost:before-open:empty-value-tail:load-rejected:%s", mergeErrKind(oerr)))
+				} else {
+					res.Stat("data-tail-lost:before-open:empty-value-tail:loaded")
+					curReaders = append([]sstables.SSTableReaderI{}, readers...)
+					curReaders[t] = rd
+					for _, op := range ops {
+						if err := doRun(op, mgFault{cuts: map[int]mgCut{t: {rec: j, kind: "record-boundary", off: off, before: true}}}); err != nil {
+							_ = rd.Close()
+							closeAll()
+							return err
+						}
+					}
+					curReaders = readers
+					_ = rd.Close()
 				}
 			}
 		}
